@@ -1074,6 +1074,8 @@ fn read_code<C: CodeVisitor>(
 				let n = r.read_i32()?;
 				if n < 0 { bail!("in lookupswitch the `npairs` must be positive, it's npairs={n:?}"); }
 				let n = n as u32;
+				// Every pair takes eight bytes of the code array, so more than `code_length / 8` of them can never be there.
+				if n > (code_length / 8) as u32 { bail!("in lookupswitch the npairs={n:?} pairs don't fit into the code array"); }
 
 				let mut pairs = Vec::with_capacity(n as usize);
 				for _ in 0..n {
